@@ -1328,7 +1328,10 @@ class Exec(Engine):
         def canon(h):
             return ''.join(ch for ch in h if ch not in '() ')
         same_shape = want is None or canon(want.split(' in ')[0]) == canon(have.split(' in ')[0]) \
-            or (want.startswith('while ') and have.startswith('while '))
+            or (want.startswith('while ') and have.startswith('while ')) \
+            or (' in ' in want and ' in ' in have and canon(want.split(' in ', 1)[1]) == canon(have.split(' in ', 1)[1]))
+        # (same iterable, renamed loop variables: the invariants stay attached; one that names a renamed variable
+        # stops the check with "unknown name", the others are checked as before)
         if want is not None and canon(want) != canon(have) and same_shape:
             # bounds / iterable edited: the invariants are still attached to this loop and are
             # checked against the new header (they fail if the edit matters)
